@@ -142,7 +142,20 @@ def gen_design(r, cfg):
                 if bus:
                     width = r.randint(1, 4)
                     lsb = r.choice([0, 0, 1, 2, 7])
-                    net = {"id": nid, "name": _orig(r, nid, nnames, plain=True), "bus": True, "lsb": lsb, "width": width, "bits": []}
+                    nm2 = _orig(r, nid, nnames, plain=True)
+                    if r.random() < 0.25:
+                        # a row of a two-dimensional signal: the bus's own name ends in an index ("row[1]"), its bits
+                        # are "row[1][0]" ...; siblings "row[0]", "row[1]" share the part before the first bracket
+                        rows = [x for x in nnames if x.endswith("]") and "[" in x]
+                        base2 = rows[0][:rows[0].index("[")] if rows and r.random() < 0.7 else nid
+                        for k2 in range(6):
+                            cand = "%s[%d]" % (base2, k2)
+                            if cand not in nnames:
+                                nnames.discard(nm2)
+                                nm2 = cand
+                                nnames.add(nm2)
+                                break
+                    net = {"id": nid, "name": nm2, "bus": True, "lsb": lsb, "width": width, "bits": []}
                     for b in range(width):
                         present = r.random() < 0.8
                         eps = []
